@@ -35,5 +35,37 @@ theorem unmarshal_eq_spec (A : AlignTable) (hA : PadOK A) (hpos : A.Pos) (le : B
   simp only [lazyPieces_renderAll, h]
   simp
 
+/-! ### arity (repair bf83351): `marshal` succeeds only if there is exactly one value per complete type -/
+
+theorem marshalSeq_ok_arity (one : List Char → PyVal → Nat → Fds → MRes) :
+    ∀ (pieces : List (List Char)) (items : List PyVal) (start : Nat) (fds : Fds) (r : Nat × Bytes × Fds),
+      marshalSeq one pieces none items start fds = .ok r → pieces.length = items.length
+  | [], [], _, _, _, _ => rfl
+  | [], _ :: _, _, _, _, h => by simp [marshalSeq] at h
+  | _ :: _, [], _, _, _, h => by simp [marshalSeq] at h
+  | ct :: pieces, v :: vs, start, fds, r, h => by
+    simp only [marshalSeq] at h
+    split at h <;> try (simp at h; done)
+    split at h <;> try (simp at h; done)
+    split at h <;> try (simp at h; done)
+    split at h <;> try (simp at h; done)
+    rename_i hrec
+    have := marshalSeq_ok_arity one pieces vs _ _ _ hrec
+    simp [this]
+
+/-- If `marshal(render ts, pv, ...)` returns at all, `pv` holds exactly as many values as `ts` has types (for
+whatever values, conforming or not): a body never silently lacks or drops a value. -/
+theorem marshal_ok_arity (fuel : Nat) (ts : List Ty) (pv : PyVal) (off : Nat) (le : Bool) (fds : Fds)
+    (r : Nat × Bytes × Fds) (h : marshal fuel (renderAll ts) pv off le fds = .ok r) :
+    ∃ items, topItems pv = .ok items ∧ items.length = ts.length := by
+  unfold marshal marshalTop at h
+  split at h <;> try (simp at h; done)
+  rename_i items hitems
+  simp only [lazyPieces_renderAll] at h
+  split at h <;> try (simp at h; done)
+  rename_i hseq
+  have := marshalSeq_ok_arity _ _ _ _ _ _ hseq
+  exact ⟨items, hitems, by simpa using this.symm⟩
+
 end Code
 end Txdbus
